@@ -5,6 +5,7 @@
 3. jft.draw_linear_residual, complex data          -> likelihood part of the metric sample has half the variance
    (found independently by the C20 author; fix: fixes/C20_complex_likelihood_sample_variance.diff)
 4. jft.draw_linear_residual, complex parameters    -> prior part of the metric sample has half the variance
+5. OptimizeVI(linear_minimizer_jit=True) + boolean-pytree point_estimates -> TracerBoolConversionError
 """
 import numpy as np
 
@@ -60,3 +61,19 @@ print("3. complex data, real parameter   : Var(Re r) = %.3f (expected 0.5; defec
 v = variance(True, True)
 print("4. complex data, complex parameter: Var(Re r), Var(Im r) = %.3f, %.3f (expected 0.5; 0.25 with both defects, "
       "0.375 with only the complex-data fix applied)" % v)
+
+# 5. OptimizeVI(linear_minimizer_jit=True) (class default) + point_estimates as the documented boolean pytree
+dom = jft.Vector({"a": jax.ShapeDtypeStruct((2,), jnp.float64), "b": jax.ShapeDtypeStruct((1,), jnp.float64)})
+lh5 = jft.Gaussian(jnp.zeros(2), noise_cov_inv=lambda t: t, noise_std_inv=lambda t: t).amend(
+    lambda x: x["a"] * x["b"], domain=dom)
+pos5 = jft.Vector({"a": jnp.ones(2), "b": jnp.ones(1)})
+for pe in (("b",), jft.Vector({"a": False, "b": True})):
+    vi = jft.OptimizeVI(lh5, 1, residual_map="lmap", linear_minimizer_jit=True)
+    try:
+        vi.draw_samples(jft.Samples(pos=pos5, samples=None, keys=None), key=random.PRNGKey(1),
+                        sample_mode="linear_resample", n_samples=1, point_estimates=pe,
+                        draw_linear_kwargs=dict(cg=jft.conjugate_gradient.static_cg, cg_kwargs=dict(maxiter=10)))
+        res = "ok"
+    except Exception as e:  # noqa: BLE001
+        res = type(e).__name__
+    print(f"5. OptimizeVI(linear_minimizer_jit=True), point_estimates={pe!r}: {res}")
